@@ -20,6 +20,141 @@ def random_config(rng, want_class=None, timeout_choices=(None, 3600, 3600)):
     return proto.Config(svcs, timeout=rng.choice(list(timeout_choices)), rules=rules, use_class=use_class)
 
 
+def collision_scripts(rng, n):
+    """Directed scripts for two clients whose ids agree in their low 5 / 8 / 10 / 16 bits (or not at all): both are live at once, one
+    leaves first in some way, the other goes on (its lines must still count), leaves too, and a late answer for it arrives.
+    Returns [(Config, [events])]; tags are predicted from the announcement order."""
+    out = []
+    for _ in range(n):
+        a = rng.choice([5, 37, 1, 300, 70000, 2])
+        b = a + rng.choice([32, 256, 1024, 65536, 1 << 20, 1 << 31 - 1, 3, 7])
+        if rng.random() < 0.5:
+            a, b = b, a
+        svcs = [("login.svc", "login")] + ([("drone.svc", "dronecheck")] if rng.random() < 0.5 else [])
+        cfg = proto.Config(svcs, timeout=rng.choice([None, 3600]))
+        tag = lambda cid, ser: "%x_%x" % (cid & 0xffffffff, ser)
+        ev = [{"t": "announce", "id": a, "ip": "192.0.2.1", "port": 1001}, {"t": "announce", "id": b, "ip": "192.0.2.2", "port": 1002},
+              {"t": "password", "id": b, "text": "+x bob pw"}]
+        if rng.random() < 0.5:
+            ev.append({"t": "password", "id": a, "text": "+x alice pw"})
+        data_b = [{"t": "host", "id": b, "name": "hb.example"}, {"t": "ident", "id": b, "name": "idb"}, {"t": "nick", "id": b, "name": "nb"},
+                  {"t": "userinfo", "id": b, "user": "ub", "real": "Real B"}]
+        rng.shuffle(data_b)
+        k = rng.randint(0, 4)
+        ev += data_b[:k]
+        # a leaves first
+        how = rng.choice(["disconnect", "registered", "hurry+reply", "no"])
+        if how in ("disconnect", "registered"):
+            ev.append({"t": how, "id": a})
+        elif how == "no":
+            ev += [{"t": "password", "id": a, "text": "+x alice pw2"}, {"t": "reply", "svc": "login.svc", "tag": tag(a, 1), "text": "NO go away"},
+                   {"t": "disconnect", "id": a}]
+        else:
+            ev += [{"t": "hurry", "id": a}, {"t": "reply", "svc": "login.svc", "tag": tag(a, 1), "text": "OK"}] + \
+                  [{"t": "reply", "svc": n_, "tag": tag(a, 1), "text": "OK"} for n_, p_ in svcs[1:]] + [{"t": "registered", "id": a}]
+        ev.append({"t": "stats"})
+        # b goes on
+        ev += data_b[k:]
+        end = rng.choice(["leave-then-late-reply", "answer", "hurry"])
+        if end == "leave-then-late-reply":
+            ev += [{"t": rng.choice(["disconnect", "registered"]), "id": b}, {"t": "stats"},
+                   {"t": "reply", "svc": "login.svc", "tag": tag(b, 2), "text": rng.choice(["OK bob", "NO late", "MORE x"])}]
+        elif end == "answer":
+            ev += [{"t": "reply", "svc": "login.svc", "tag": tag(b, 2), "text": "OK bob"}] + [{"t": "reply", "svc": n_, "tag": tag(b, 2), "text": "OK"} for n_, p_ in svcs[1:]]
+        else:
+            ev += [{"t": "hurry", "id": b}, {"t": "reply", "svc": "login.svc", "tag": tag(b, 2), "text": "OK"}]
+        ev += [{"t": "stats"}, {"t": "announce", "id": a, "ip": "192.0.2.3", "port": 1003}, {"t": "hurry", "id": a}, {"t": "stats"}]
+        out.append((cfg, ev))
+    return out
+
+
+def reload_scripts(rng, n):
+    """Directed scripts around a SIGUSR1 that removes a service which still owes something: an answer, or the continuation of a
+    MORE dialogue.  Returns [(Config, [events])]."""
+    out = []
+    for _ in range(n):
+        lp = rng.choice(["login", "login-ipr", "combined"])
+        svcs = [("chal.svc", lp), ("keep.svc", rng.choice(["login", "dronecheck"]))]
+        after = [svcs[1]] + ([("new.svc", "login")] if rng.random() < 0.4 else [])
+        cfg = proto.Config(svcs, timeout=rng.choice([None, 3600]))
+        kind = rng.choice(["more-then-removed", "more-then-removed", "owed-answer", "two-waiters"])
+        cids = [5, 9] if kind == "two-waiters" else [5]
+        ev = []
+        ser = {}
+        for k, cid in enumerate(cids):
+            ser[cid] = k + 1
+            ev += [{"t": "announce", "id": cid, "ip": "192.0.2.%d" % cid, "port": 1000 + cid}, {"t": "host", "id": cid, "name": "h%d.example" % cid},
+                   {"t": "ident", "id": cid, "name": "id%d" % cid}, {"t": "nick", "id": cid, "name": "n%d" % cid},
+                   {"t": "userinfo", "id": cid, "user": "u%d" % cid, "real": "R"}, {"t": "password", "id": cid, "text": "%s acct%d pw" % (rng.choice(["+x", "+!", "+"]), cid)}]
+        tag = lambda cid: "%x_%x" % (cid, ser[cid])
+        if kind == "more-then-removed":
+            ev += [{"t": "reply", "svc": "chal.svc", "tag": tag(5), "text": "MORE prove it"}]
+            if rng.random() < 0.5:
+                ev += [{"t": "reply", "svc": "keep.svc", "tag": tag(5), "text": "OK"}]
+            ev += [{"t": "reload", "services": [list(x) for x in after]}, {"t": "password", "id": 5, "text": "response1"}]
+            if rng.random() < 0.5:
+                ev += [{"t": "password", "id": 5, "text": "-! acct5 pw2"}]
+            ev += [{"t": "reply", "svc": n_, "tag": tag(5), "text": "OK acct5" if p_ != "dronecheck" else "OK"} for n_, p_ in after]
+            ev += [{"t": "hurry", "id": 5}]
+        else:
+            ev += [{"t": "reload", "services": [list(x) for x in after]}]
+            order = list(cids)
+            rng.shuffle(order)
+            for cid in order:
+                ev += [{"t": "reply", "svc": "chal.svc", "tag": tag(cid), "text": rng.choice(["OK acct%d" % cid, "OK", "NO refused %d" % cid, "AGAIN retry"])}]
+                ev += [{"t": "reply", "svc": "keep.svc", "tag": tag(cid), "text": "OK"}]
+            for cid in cids:
+                ev += [{"t": "hurry", "id": cid}]
+        ev += [{"t": "stats"}]
+        out.append((cfg, ev))
+    return out
+
+
+def reload_jobs(build, seed, props, n, tag="rls", per=10):
+    rng = random.Random("%s/%d" % (tag, seed))
+    scripts = [(c.to_json(), ev) for c, ev in reload_scripts(rng, n)]
+    return [dict(build=build, scripts=scripts[i:i + per], props=props) for i in range(0, len(scripts), per)]
+
+
+def script_worker(a):
+    """Explicit event lists judged by the shared monitor.  a = dict(build, scripts=[(config json, events)], props)."""
+    import monitor
+    import prun
+    import vcommon
+    results = []
+    for cfgj, events in a["scripts"]:
+        cfg = proto.Config.from_json(cfgj)
+        tr = prun.replay_events(a["build"], cfg, events)
+        viol, stats = monitor.analyze(tr)
+        out = []
+        seen = set()
+        for v in viol:
+            if v.prop in a["props"] and v.sig not in seen:
+                seen.add(v.sig)
+                out.append((v.prop, v.rule, v.sig, "%s\nconfig: %s\nhistory:\n%s" % (v.text, cfg.to_json(), prun.render_trace(tr)),
+                            {"config": cfg.to_json(), "events": events}))
+        crash = []
+        res = tr.result or {}
+        unclean = bool(res) and (res.get("exit") != 0 or res.get("sanitizer") or res.get("signal") or res.get("hang"))
+        stats["daemon_unclean"] = 1 if unclean else 0
+        stats["directed_scripts"] = 1
+        if unclean:
+            for sn in (res.get("sanitizer") or [["exit", str(res.get("exit"))]]):
+                crash.append((str(sn[0]), str(sn[1]) if len(sn) > 1 else "?", str(res.get("stderr_tail", ""))[-1500:], prun.render_trace(tr, 12)))
+        results.append({"viol": out, "stats": stats, "crash": crash, "nontrivial": stats["verdicts"] > 0, "sample": None, "nsteps": len(tr.steps),
+                        "hash": vcommon.h([cfg.to_json(), [proto.render(e) for e in events]]), "config": cfg.to_json(), "events": events if crash else None})
+    return results
+
+
+def collision_jobs(build, seed, props, n, tag="col", per=10, plain=None):
+    rng = random.Random("%s/%d" % (tag, seed))
+    scripts = [(c.to_json(), ev) for c, ev in collision_scripts(rng, n)]
+    jobs = []
+    for i in range(0, len(scripts), per):
+        jobs.append(dict(build=(plain if (plain and (i // per) % 2) else build), scripts=scripts[i:i + per], props=props))
+    return jobs
+
+
 def hist_jobs(build, n, seed, props, n_events=120, ids_pool=(3, 4, 5, 6, 17), opts=None, want_class=None, cfg_fn=None, leaks=True,
               tag="h", sample_every=None, reload_share=0.25, vary_addr=0.5):
     """Random-history jobs.  A share of them contains SIGUSR1 reloads that switch between service tables (names keep their
@@ -29,7 +164,7 @@ def hist_jobs(build, n, seed, props, n_events=120, ids_pool=(3, 4, 5, 6, 17), op
         rng = random.Random("%s/%d/%d" % (tag, seed, i))
         cfg = cfg_fn(rng) if cfg_fn else random_config(rng, want_class)
         ids = list(ids_pool)[:rng.choice([3, 4, 5])] if len(ids_pool) >= 5 else list(ids_pool)
-        if i % 4 == 2 and len(ids_pool) >= 5:
+        if i % 8 in (2, 7) and len(ids_pool) >= 5:
             # ids that agree in their low 8 / 10 / 16 bits, and ids at the ends of the int range (the table is keyed by int)
             ids = [[5, 261, 1029, 65541], [7, 7 + 1024, 7 + 2048, 7 + (1 << 20)], [-2147483648, 2147483647, -2, 2000000000, -2000000000]][(i // 4) % 3]
         o = dict(opts or {})
